@@ -101,7 +101,7 @@ fn case<S: Shape>(spec: &AnimSpec, st: usize, r: &mut Rng, acc: &mut Acc, stream
     let entry = ops.len();
     // schedule of advances after entering `st`
     let mut advs: Vec<f32> = Vec::new();
-    let mode = r.below(4);
+    let mode = r.below(5);
     let total_rem = total.map(|t| if t.is_finite() { t - resumed_part } else { t });
     match (total_rem, mode) {
         (Some(t), 0) if t.is_finite() => {
@@ -121,6 +121,11 @@ fn case<S: Shape>(spec: &AnimSpec, st: usize, r: &mut Rng, acc: &mut Acc, stream
                 advs.push((t / k as f64) as f32);
             }
             advs.push(0.0);
+        }
+        (Some(_), 4) => {
+            // an ordinary step, then one longer than anything (beyond 2^64 s, what a Duration holds)
+            advs.push(*r.pick(&[0.001953125f32, 0.125, 0.5]));
+            advs.push(*r.pick(&[1.9e19f32, 1.0e20, 3.0e30, f32::MAX]));
         }
         _ => {
             for _ in 0..(3 + r.usize(10)) {
@@ -143,6 +148,9 @@ fn case<S: Shape>(spec: &AnimSpec, st: usize, r: &mut Rng, acc: &mut Acc, stream
     advs.push(1.0e6);
     advs.push(1.0e8);
     advs.push(1.0e10);
+    advs.push(1.0e20);
+    advs.push(0.0);
+    advs.push(f32::MAX);
     ops.extend(advs.iter().map(|d| Op::Adv(*d)));
     let mut real = build_anim::<S>(spec);
     let mut model = MAnim::<S>::new(spec);
